@@ -370,9 +370,20 @@ class Evaluator:
                 env[n] = ("sym", "%s@%s" % (n, tag))
         # stored attribute/subscript facts rooted at something the loop body mutates become unknown
         muts = self._assigned(stmts)
+        # facts about objects held in local names (e.g. h = wcs.to_header(); h["K"] = v) are rooted at that name
+        holders = {}
+        for name, val in env.items():
+            if isinstance(name, str) and isinstance(val, tuple) and val and val[0] in ("call", "new"):
+                holders.setdefault(val, set()).add(name)
         for k in [k for k in env if isinstance(k, tuple)]:
             root, first_attr = _root_of(k)
-            if root is None or root in muts or (root == "self" and ("self." + str(first_attr)) in muts):
+            if root is None:
+                base = _base_of(k)
+                names = holders.get(base)
+                if names is not None and not (names & set(x for x in muts if isinstance(x, str))):
+                    continue
+                del env[k]
+            elif root in muts or (root == "self" and ("self." + str(first_attr)) in muts):
                 del env[k]
         return env
 
@@ -940,6 +951,13 @@ def _target_names(t):
             return ["self." + str(first)]
         return [b.id] if isinstance(b, ast.Name) else []
     return []
+
+
+def _base_of(term):
+    t = term
+    while isinstance(t, tuple) and t and t[0] in ("attr", "sub", "item"):
+        t = t[1]
+    return t
 
 
 def _root_of(term):
